@@ -22,8 +22,12 @@ THEOREMS = [
     'PbBss.C01.hden_of_positive_mass',
     'PbBss.C01.hden_no_mask',
     'PbBss.C01.hden_fails_when_argmax_masked',
+    'PbBss.C01.affiliation_finite_special_values',
+    'PbBss.C01.affiliation_nan_of_all_minus_inf',
     'PbBss.C01.predict_bayes',
     'PbBss.C01.predict_sum_one',
+    'PbBss.C01.integration_density',
+    'PbBss.C01.unitNormDen_pos',
     'PbBss.C01.unsqueeze_documented_options',
     'PbBss.C01.weightAt_documented_options',
     'PbBss.C01.uniformNormalized_simplex',
@@ -36,8 +40,11 @@ THEOREMS = [
     'PbBss.C01.normalizeWhere_unit',
 ]
 ASSUMPTIONS = [
-    'theorems are over the reals: "never NaN / finite for any magnitude" is a floating-point claim NOT covered by a '
-    'theorem (gap); it rests on the search with the degenerate / 1e+-150 stream',
+    'theorems are over the reals: "never NaN / finite for any magnitude" is a floating-point claim only PARTLY covered: '
+    'affiliation_finite_special_values proves that the routine creates no NaN in an exact special-values model (reals + '
+    '+-inf + NaN, IEEE rules, no rounding, no overflow threshold) whenever one log-pdf is finite, and '
+    'affiliation_nan_of_all_minus_inf that it does when all are -inf (known finding); rounding / overflow of the '
+    'component log-pdfs themselves rest on the search with the degenerate / 1e+-150 stream',
     'affiliation_sum_one / affiliation_bayes need the forced hypothesis tiny <= denominator (hden); it follows from '
     'weights >= tiny when the arg-max class is active (hden_of_positive_mass); the excluded point (arg-max class masked '
     'out and every active class > ~745 nats below it) needs eigenvalue_floor <= 1e-41, which is not a setting the '
@@ -127,6 +134,36 @@ def posterior_valid_and_bayes(model, stream, obs, emb, init, num_classes, seed, 
         return Fail('integration-weight-nan-on-zero-saliency-group',
                     f'{name} wca={o.get("weight_constant_axis")}: saliency is zero on a whole group of tied observations; '
                     f'the in-line weight formula divides 0/0 and the stored weights (hence the posteriors) are NaN')
+    if np.isnan(g).any():
+        # root cause search: the first iterate whose own log-pdfs are -inf for EVERY class at some observation
+        dead_col = None
+        for it in range(1, int(iterations) + 1):
+            try:
+                mi = m if it == int(iterations) else pu.fit(name, obs, emb, init, it, o,
+                                                            num_classes=num_classes if init is None else None, seed=seed)
+                lpi = pu.own_log_pdf(name, mi, obs, emb)
+            except Exception:  # noqa
+                break
+            if np.isnan(lpi).any() or not np.isfinite(np.asarray(mi.weight, dtype=np.float64)).all():
+                break
+            if np.all(np.isneginf(lpi), axis=-2).any():
+                dead_col = np.all(np.isneginf(lpi), axis=-2)
+                break
+        if dead_col is not None:
+            i = np.argwhere(dead_col)[0].tolist()
+            return Fail('all-component-log-pdfs-minus-inf-nan-posterior',
+                        f'{name}: at observation {i} the log_pdf of EVERY class is -inf (the observation lies more than '
+                        f'~1e154 standard deviations from every component: squared distance overflows); '
+                        f'log_pdf_to_affiliation computes -inf - (-inf) and returns NaN for that column')
+    if lp is not None and np.isfinite(lp).all() and np.all(wfull >= 0):
+        # hypothesis "every class has non-zero mass" (hden_of_positive_mass): a class whose stored weight is exactly 0
+        # (it died during EM) but whose log-pdf exceeds every class with mass by more than the exp range floors the
+        # denominator; such a model is outside the property's hypothesis
+        mb0 = np.ones(shape, bool) if mask is None else np.broadcast_to(mask, shape)
+        top = np.take_along_axis(wfull, np.argmax(lp, axis=-2)[..., None, :], axis=-2)[..., 0, :]
+        best = np.where(mb0 & (wfull > 0), lp, -np.inf).max(-2)
+        if np.any((top == 0) & np.isfinite(best) & (lp.max(-2) - best > (80 if single else 700))):
+            return Skip('a class without mass (stored weight 0) attains the maximal log-pdf by more than the exp range')
     if mask is not None and lp is not None and np.isfinite(lp).all() and np.isfinite(g).all():
         # the excluded point of the forced hypothesis `hden` (DESIGN.md C01): the arg-max class is inactive and every
         # active class lies so far below it that exp underflows (745 nats in double, 88 in single precision)
@@ -462,14 +499,14 @@ def search(ctx):
     EXC.clear()
     quick = ctx.tier == 'quick'
     # (1) the posterior routine itself
-    for i in range(ctx.n(300, 6000)):
+    for i in range(ctx.n(600, 8000)):
         inp, kind = _kernel_case(rng)
         ctx.count('kernel:' + kind)
         ctx.run(kernel_valid_and_bayes, **inp)
     # (2) the seven models: regular stream (every tying option is visited for every model first), then degenerate
     sched = []
     for name in pu.MODELS:
-        sched += [(name, 'regular')] * ctx.n(10, 150) + [(name, 'degenerate')] * ctx.n(12, 250)
+        sched += [(name, 'regular')] * ctx.n(80, 400) + [(name, 'degenerate')] * ctx.n(90, 500)
     order = rng.permutation(len(sched))
     wca_cycle = {}
     t_models = 0.62 * ctx.budget_s
@@ -506,7 +543,7 @@ def search(ctx):
                         'iterations': inp['iterations'], 'opts': {k: (v if not isinstance(v, np.ndarray) else 'array')
                                                                   for k, v in inp['opts'].items()}, 'held': ok})
     # (3) initialisers
-    for i in range(ctx.n(120, 2500)):
+    for i in range(ctx.n(250, 3000)):
         K = int(rng.integers(1, 7))
         N = int(rng.integers(1, 40))
         lead = [int(rng.integers(1, 4)) for _ in range(int(rng.integers(0, 3)))]
@@ -522,7 +559,7 @@ def search(ctx):
             minimum = 0.5 / K
         ctx.count('init:flag')
         ctx.run(flag_initializer_values, lead=lead, N=N, D=2, K=K, minimum=minimum)
-    for i in range(ctx.n(4, 40)):
+    for i in range(ctx.n(6, 40)):
         if ctx.out_of_time(reserve=10):
             break
         F = 257 if (quick or rng.random() < 0.7) else 513
@@ -570,7 +607,7 @@ def _corr_kernel(ctx):
     """(i) the posterior routine itself, one observation per driver line"""
     rng = ctx.rng
     lines, metas = [], []
-    for i in range(ctx.n(600, 12000)):
+    for i in range(ctx.n(1500, 20000)):
         K = int(rng.integers(1, 7))
         kind = str(rng.choice(['normal', 'wide', 'span-1e308', 'neginf', 'all-neginf', 'equal', 'posinf-weightless']))
         if kind == 'normal':
@@ -657,7 +694,7 @@ def _corr_predict(ctx):
     """(ii) predict of the seven models vs the Lean posterior fed with the model's own log_pdf values and stored weights"""
     rng = ctx.rng
     lines, metas = [], []
-    per = ctx.n(12, 200)
+    per = ctx.n(30, 300)
     for name in pu.MODELS:
         done = 0
         tries = 0
@@ -670,7 +707,7 @@ def _corr_predict(ctx):
             shape = (F, K, N)
             w = np.asarray(m.weight, dtype=np.float64)
             if name in pu.INTEGRATION:
-                sp, sc = pu.stream_log_pdfs(name, m, obs, emb)
+                sp, sc = pu.stream_log_pdfs_as_predict(name, m, obs, emb)
                 want = m.predict(obs, emb)
                 axis = tuple(m.weight_constant_axis)
                 want_shape = unsqueeze(w, axis).shape
